@@ -165,6 +165,15 @@ func goLocate(x jp.Expr, data any, root *Node, structs bool) (o out) {
 	return
 }
 
+// goLocateMax: Locate with a budget; the reported paths in the order of the returned slice.
+func goLocateMax(x jp.Expr, data any, root *Node, max int) (o out) {
+	defer guard(&o)
+	for _, loc := range x.Locate(data, max) {
+		located(&o, loc, root, data, false, nil)
+	}
+	return
+}
+
 func goWalk(x jp.Expr, data any, root *Node, structs bool) (o out) {
 	defer guard(&o)
 	x.Walk(data, func(path jp.Expr, nodes []any) {
